@@ -734,7 +734,12 @@ class DoIPConnection:
         payload = AliveCheckResponse(
             SourceAddress=self.src_addr,
         )
-        await self.write_request_raw(hdr, payload)
+        # Called from the read worker. Taking the mutex here blocks the worker
+        # for as long as a writer awaits its ACK or a reader waits for a frame;
+        # no ACK is expected for this message, so write it out directly.
+        self.writer.write(hdr.pack() + payload.pack())
+        await self.writer.drain()
+        logger.trace("Sent DoIP message: hdr: %s, payload: %s", hdr, payload)
 
     async def close(self) -> None:
         logger.debug("Closing DoIP connection...")
